@@ -10,20 +10,22 @@ StructMode == @STRUCTMODE@ \* "full": every combination of field classes; "star"
 Exporters == @EXPORTERS@   \* subset of the six OTLP exporters
 
 (* ---- source domains ---- *)
-NumEnv(id)  == {Absent, Valid(id), Bad("nonnum"), Bad("neg"), Bad("zero"), Bad("float"), Bad("overflow"), Src("padded", id)}
-NumOpt(id)  == {Absent, Valid(id), Bad("zero"), Bad("neg")}
+NumEnv(id)  == {Absent, Empty, Valid(id), Bad("vdef"), Bad("nonnum"), Bad("neg"), Bad("zero"), Bad("float"), Bad("overflow"), Src("padded", id)}
+NumOpt(id)  == {Absent, Valid(id), Bad("vdef"), Bad("zero"), Bad("neg")}
 
-URLEnv(base) == {Absent, Src("url", ""), Src("url", "/"), Src("url", base), Src("url", base \o "/"),
-                 Bad("unparsable"), Bad("noscheme"), Src("pathonly", "/p")}
-URLOptHTTP  == {Absent, Bad("host"), Src("path", "/o"), Src("path", "/o/"), Src("hostpath", "/o"),
-                Src("url", ""), Src("url", "/"), Src("url", "/o"), Src("url", "/o/"), Bad("badurl")}
-URLEnvGRPC  == {Absent, Src("url", ""), Src("url", "/"), Bad("unparsable"), Bad("noscheme"), Src("pathonly", "/p")}
-URLOptGRPC  == {Absent, Bad("host"), Src("url", ""), Bad("badurl")}
+(* c = component: the default path of its signal is a VALID path value equal to the default *)
+URLEnv(c, base) == {Absent, Empty, Src("url", ""), Src("url", "/"), Src("url", base), Src("url", base \o "/"),
+                    Src("url", SignalPath(c)), Src("defurl", ""), Src("defurl", SignalPath(c)),
+                    Bad("unparsable"), Bad("noscheme"), Src("pathonly", "/p")}
+URLOptHTTP(c) == {Absent, Bad("host"), Bad("defhost"), Src("path", "/o"), Src("path", "/o/"), Src("path", SignalPath(c)),
+                  Src("hostpath", "/o"), Src("url", ""), Src("url", "/"), Src("url", "/o"), Src("url", "/o/"), Bad("badurl")}
+URLEnvGRPC  == {Absent, Empty, Src("url", ""), Src("url", "/"), Src("defurl", ""), Bad("unparsable"), Bad("noscheme"), Src("pathonly", "/p")}
+URLOptGRPC  == {Absent, Bad("host"), Bad("defhost"), Src("url", ""), Bad("badurl")}
 
-HdrEnv(id) == {Absent, Valid(id), Bad("garbage"), Src("partial", id), Bad("badkey")}
+HdrEnv(id) == {Absent, Empty, Valid(id), Bad("garbage"), Src("partial", id), Bad("badkey")}
 HdrOpt     == {Absent, Valid("mO"), Valid("none")}          \* "none" = explicitly empty map
 
-CmpEnv == {Absent, Valid("gzip"), Valid("none"), Bad("unknown"), Src("case", "gzip")}
+CmpEnv == {Absent, Empty, Valid("gzip"), Valid("none"), Bad("unknown"), Src("case", "gzip")}   \* Valid("none") = the default
 CmpOpt(comp) == {Absent, Valid("gzip"), Valid("none")} \cup (IF IsHTTP(comp) THEN {Bad("badenum")} ELSE {Bad("unknown")})
 
 NoCtx == [kind |-> "none", fields |-> <<>>, env |-> Absent]
@@ -31,8 +33,8 @@ CaseX(fam, comp, setting, srcs, ctx) == [fam |-> fam, comp |-> comp, setting |->
 Case(fam, comp, setting, srcs) == CaseX(fam, comp, setting, srcs, NoCtx)
 
 EndpointCases ==
-  {Case("endpoint", c, "endpoint", <<o, s, g>>) :
-      c \in {x \in Exporters : IsHTTP(x)}, o \in URLOptHTTP, s \in URLEnv("/s"), g \in URLEnv("/g")}
+  UNION {{Case("endpoint", c, "endpoint", <<o, s, g>>) : o \in URLOptHTTP(c), s \in URLEnv(c, "/s"), g \in URLEnv(c, "/g")} :
+            c \in {x \in Exporters : IsHTTP(x)}}
   \cup {Case("endpoint", c, "endpoint", <<o, s, g>>) :
       c \in {x \in Exporters : ~IsHTTP(x)}, o \in URLOptGRPC, s \in URLEnvGRPC, g \in URLEnvGRPC}
 HeaderCases == {Case("scalar", c, "headers", <<o, s, g>>) : c \in Exporters, o \in HdrOpt, s \in HdrEnv("mS"), g \in HdrEnv("mG")}
@@ -50,10 +52,10 @@ LimitCases ==
 
 SamplerCases ==
   {Case("sampler", "sdk", "sampler", <<o, n, a>>) :
-     o \in {Absent, Valid("traceidratio:R50"), Bad("nil")},
+     o \in {Absent, Valid("traceidratio:R50"), Valid("parentbased_always_on"), Bad("nil")},
      n \in {Valid(x) : x \in SamplerNames} \cup {Absent, Bad("unknown"), Bad("empty"), Src("case", "always_off"),
                                                   Src("case", "traceidratio")},
-     a \in {Absent, Valid("R25"), Valid("R0"), Bad("nonnum"), Bad("neg"), Bad("gt1"), Bad("empty")}}
+     a \in {Absent, Valid("R25"), Valid("R0"), Valid("R100"), Bad("nonnum"), Bad("neg"), Bad("gt1"), Bad("empty")}}
 
 (* ---- struct-valued options: every field is provided by the option, also zero-valued fields ----
    One case per (option kind, struct, environment, OBSERVED field): the harness passes the literal
@@ -72,7 +74,7 @@ StructsOf(n) ==
 OptSrc(kind, cls) ==
   IF cls = "valid" THEN Valid("O") ELSE IF kind = "nonraw" THEN Bad("nr" \o cls)
   ELSE IF cls = "neg" THEN Bad("rawneg") ELSE Bad(cls)
-StructEnv == {Absent, Valid("S"), Bad("nonnum")}
+StructEnv == {Absent, Empty, Valid("S"), Bad("nonnum")}
 Carrier(fields, f) ==   \* index of the field that must not be disabled for field f to be observable (0: none)
   CASE fields[f] = "span.attr_len" -> 1 [] fields[f] = "span.event_attr_count" -> 3
     [] fields[f] = "span.link_attr_count" -> 4 [] fields[f] = "logrecord.attr_len" -> 1 [] OTHER -> 0
@@ -90,8 +92,8 @@ StructCases == StructCasesOf("raw", SpanFields) \cup StructCasesOf("nonraw", Spa
    full queue x batch grid, an ill-formed duration next to valid/absent sizes and the other duration,
    an ill-formed size next to a valid export timeout.  The edge carries the normalized configuration
    the harness has to execute as the reference. *)
-SizeIll == {Bad("nonnum"), Bad("neg"), Bad("zero"), Bad("float"), Bad("overflow")}
-DurIll == {Bad("nonnum"), Bad("neg"), Bad("float"), Bad("overflow")}
+SizeIll == {Empty, Bad("nonnum"), Bad("neg"), Bad("zero"), Bad("float"), Bad("overflow")}
+DurIll == {Empty, Bad("nonnum"), Bad("neg"), Bad("float"), Bad("overflow")}
 SizeEnv == {Absent, Valid("A"), Valid("B")} \cup SizeIll
 CrossCfgs ==
   {<<q, b, Absent, Absent>> : q \in SizeEnv, b \in SizeEnv}
@@ -128,10 +130,10 @@ EmitEdge == PrintT("EDGE " \o ToJson([from |-> st.phase, act |-> act', to |-> [a
 
 (* ---- the statement as invariants over every enumerated case ---- *)
 HighestValid(c) ==   \* index of the first non-absent source if it is valid, else 0
-  LET idx == {i \in 1..Len(c.srcs) : c.srcs[i].k # "absent"} IN
+  LET idx == {i \in 1..Len(c.srcs) : ~Unset(c.srcs[i])} IN
   IF idx = {} THEN 0
   ELSE LET i == CHOOSE i \in idx : \A j \in idx : i <= j IN
-       IF c.fam = "scalar" /\ IsValid(TypeOf(c.setting), c.srcs[i]) THEN i ELSE 0
+       IF c.fam = "scalar" /\ IsValid(TypeOf(c.setting), DocSrc(c.setting, c.srcs[i])) THEN i ELSE 0
 
 Inv ==
   st.phase = "configured" /\ act.fam # "cross" =>
@@ -140,12 +142,12 @@ Inv ==
     /\ st.ideal # {}
     \* a well-formed highest source decides alone, whatever lower sources say (precedence)
     /\ (HighestValid(act) # 0 /\ ~GenericOptional(act.setting)
-          => st.allowed = {ValueOf(TypeOf(act.setting), act.srcs[HighestValid(act)])})
+          => st.allowed = {ValueOf(TypeOf(act.setting), DocSrc(act.setting, act.srcs[HighestValid(act)]))})
     \* nothing configured => exactly the default
-    /\ (act.fam = "scalar" /\ (\A i \in 1..Len(act.srcs) : act.srcs[i].k = "absent")
+    /\ (act.fam = "scalar" /\ (\A i \in 1..Len(act.srcs) : Unset(act.srcs[i]))
           => st.allowed = {DefaultOf(act.setting)})
     \* no ill-formed source anywhere => no choice left (exporters: one host; option paths may be normalised)
-    /\ (act.fam = "scalar" /\ (\A i \in 1..Len(act.srcs) : act.srcs[i].k = "absent" \/ IsValid(TypeOf(act.setting), act.srcs[i]))
+    /\ (act.fam = "scalar" /\ (\A i \in 1..Len(act.srcs) : Unset(act.srcs[i]) \/ IsValid(TypeOf(act.setting), DocSrc(act.setting, act.srcs[i])))
           /\ ~GenericOptional(act.setting) => Cardinality(st.allowed) = 1)
     /\ (act.fam = "endpoint" /\ (\A i \in 1..3 : act.srcs[i].k \notin IllFormedURL)
           => Cardinality({r.who : r \in EndpointAllowed(act.comp, act.srcs)}) = 1)
@@ -175,10 +177,17 @@ CrossInv ==
    sources above it contain a well-formed value (checked for every enumerated scalar case) *)
 Monotone ==
   st.phase = "configured" /\ act.fam = "scalar" =>
-    \A i \in 1..Len(act.srcs) :
-       (\E j \in 1..(i - 1) : IsValid(TypeOf(act.setting), act.srcs[j]))
-         => Allowed(TypeOf(act.setting), [act.srcs EXCEPT ![i] = Absent], DefaultOf(act.setting))
-              = Allowed(TypeOf(act.setting), act.srcs, DefaultOf(act.setting))
+    LET srcs == DocSrcs(act.setting, act.srcs) IN
+    \A i \in 1..Len(srcs) :
+       (\E j \in 1..(i - 1) : IsValid(TypeOf(act.setting), srcs[j]))
+         => Allowed(TypeOf(act.setting), [srcs EXCEPT ![i] = Absent], DefaultOf(act.setting))
+              = Allowed(TypeOf(act.setting), srcs, DefaultOf(act.setting))
+
+(* an empty variable is indistinguishable from an absent one, in every position of every case *)
+EmptyIsUnset ==
+  st.phase = "configured" /\ act.fam # "cross" =>
+    st.allowed = AllowedFor([act EXCEPT !.srcs = [i \in 1..Len(act.srcs) |-> IF act.srcs[i].k = "empty" /\ act.fam # "sampler"
+                                                                             THEN Absent ELSE act.srcs[i]]])
 
 (* exporters of different signals agree on the rule: the admissible outcomes of a scalar exporter
    setting do not depend on the component; endpoint outcomes differ only by the signal path *)
